@@ -204,7 +204,9 @@ func (c *WireCase) canonical() bool {
 
 // genWireCase draws an RFC-well-formed wire image description.
 func genWireCase(t *rapid.T, allowID15 bool) *WireCase {
+	allowAppbitsProfiles = false
 	c := &WireCase{Model: *genPacketModel(t)}
+	allowAppbitsProfiles = true
 	m := &c.Model
 	if len(m.Payload) > 200 {
 		m.Payload = m.Payload[:200]
